@@ -505,3 +505,7 @@ mod tests {
         }
     }
 }
+
+#[cfg(vpncloud_verif)]
+#[path = "/verif/harness/hooks/common.rs"]
+pub mod verif;
